@@ -346,7 +346,7 @@ func c02(r *hx.Run) {
 	w.Pts = hx.InstallPoints(r.Seed)
 	variants := []string{"parked", "held_registered", "held_registered_purge", "late", "waiter_client_abort", "evicted_during_fetch", "clock_jump_during_fetch"}
 	hi := 0
-	reps := r.Pick(2, 8)
+	reps := r.Pick(2, 30)
 	for rep := 0; rep < reps; rep++ {
 		for _, oc := range c02Outcomes {
 			for _, v := range variants {
@@ -358,7 +358,7 @@ func c02(r *hx.Run) {
 			}
 		}
 	}
-	nseq := r.Pick(25, 1500)
+	nseq := r.Pick(25, 6000)
 	for i := 0; i < nseq && !r.TooMany(); i++ {
 		n := 2 + rnd.Intn(5)
 		var eps []c02Epoch
